@@ -398,6 +398,9 @@ pub fn run_c11(run: &Run) {
             run.add_counts(0, st.1, st.0, st.0);
         }
     }
+    // restrictions on a diagram with more than 4096 nodes in one store (a later answer must not depend on the memo entries
+    // the earlier requests left behind)
+    crate::c06_07::big_restrict_family(run);
     // statements that SHARE a condition: five statements, the first three with self-referential ternary conditions, the
     // last two with one and the same condition over the first three - the place where a memo keyed by the condition's
     // handle alone (without the statement it is asked for) collides. The counting searches one after the other in both
